@@ -32,6 +32,11 @@ func c12Images(tier string) []c12Image {
 		// two live records in ONE rewritten file that is indexed through the hint only: the second one sits at an offset a
 		// truncated file no longer has
 		{Name: "hint-indexed-offsets", Cfg: roomyCfg(), Trace: "put b S; put a S; put b S; merge; restart", Dense: true},
+		// ... and the same in a rewritten file that is NOT the last one (the last one is scanned again by Open, the others
+		// are reached through the hint alone): DataFileSize 70 holds two records per file, three live keys
+		{Name: "hint-indexed-first-file", Cfg: megCfg(70), Keys: keysABC, Trace: "put a S; put b S; put c S; put a S; merge; restart", Dense: true},
+		// the hint is used by the ADOPTING Open only: the same merge, not yet adopted (the damage is in the merge directory)
+		{Name: "hint-indexed-first-file-unadopted", Cfg: megCfg(70), Keys: keysABC, Trace: "put a S; put b S; put c S; put a S; merge", Dense: true},
 		{Name: "merge-adopted", Cfg: defaultCfg, Trace: "put a L; put b L; put a S; merge; restart; put b S", Dense: true},
 		// two rewritten files: the first one is indexed through the hint only (never scanned by the adopting Open)
 		{Name: "merge-unadopted-2files", Cfg: defaultCfg, Trace: "put a L; put b L; put a L; put b L; merge", Dense: true},
